@@ -721,6 +721,15 @@ def tsMatrix2Old [Div K] [LT K] [DecidableLT K] [DecidableEq K] (sqrt : K → K)
   if closeTo atol rtol p.x (dil * dflt.x) && closeTo atol rtol p.y (dil * dflt.y) then some M2.one
   else rotFromToCode2 sqrt tol2 dflt p
 
+/-! ## `axis_rotation(axis, angle, vectors, axis_shift)` (round 5) -/
+
+/-- `axis_rotation`: rotation of the point `v` about the line through `axis_shift` with
+direction `a` (only the part of the shift perpendicular to `a` matters):
+`sh⊥ + R·(v - sh⊥)`, `sh⊥ = sh - ⟨a, sh⟩ a`, `R = axis_rotation_matrix(a, angle)`. -/
+def axisRotation (a : V3 K) (c s : K) (v sh : V3 K) : V3 K :=
+  let shp := V3.sub sh (V3.smul (V3.dot a sh) a)
+  V3.add shp ((axisRot a c s).mulVec (V3.sub v shp))
+
 end ops
 
 end OdlModel.Geometry
